@@ -439,6 +439,38 @@ def r8_metadata_grammar(ctx, rep):
     rep.ob("metadata keys are lower-cased", ok, "", py.nloc(fn))
 
 
+
+def r9_values_recorded_as_written(ctx, rep):
+    """(a) a `key: value` metadata line records its value also when it is empty (an option explicitly set to the empty
+    string is not the default); (b) values from fpm.toml are native TOML values and must not pass through the text
+    conversion (convert_setting assumes lists of strings for dictionary options)"""
+    py = ctx.py
+    fn = py.func("utils.meta_preprocessor")
+    ev = astq.trace(fn)
+    key_line = [e for e in ev if e.kind == "assign" and e.value is not None and "META_RE" in e.text(e.value) and "MORE" not in e.text(e.value)]
+    if not key_line:
+        raise AnalysisError("meta_preprocessor: META_RE match not found")
+    mvar = key_line[0].target
+    apps = [e for e in ev if e.kind == "call" and isinstance(e.node.func, ast.Attribute) and e.node.func.attr == "append"
+            and any(re.search(rf"\b{re.escape(mvar)}\b", c) and not c.startswith("not") for c in e.cond_texts())
+            and not any("MORE" in c for c in e.cond_texts())]
+    if not apps:
+        raise AnalysisError("meta_preprocessor: the append of a key line's value was not found")
+    for e in apps:
+        extra = [c for c in e.cond_texts() if not re.search(rf"\b{re.escape(mvar)}\b", c) and "lines" not in c and "END_RE" not in c
+                 and "strip() == ''" not in c]
+        rep.ob("a key line records its value even when it is empty", not extra,
+               "appended unconditionally once the line matched" if not extra else
+               f"the value of a `key: value` line is only recorded under {extra}: `docmark_alt:` (set to empty) silently keeps the "
+               f"default, while the same setting in fpm.toml / --config yields ''", py.nloc(e.node))
+    toml = py.func("settings.load_toml_settings")
+    tev = astq.trace(toml, astq.class_method_resolver(py, None, "settings"), max_depth=2)
+    conv = [e for e in tev if e.kind in ("call", "inline") and call_name(e.node).split(".")[-1] in ("convert_setting", "convert_types_from_metapreprocessor")]
+    rep.ob("fpm.toml values are not passed through the text conversion", not conv,
+           "native TOML values reach ProjectSettings(...) as they are" if not conv else
+           f"`{ast.unparse(conv[0].node)[:70]}` applies the markdown-metadata conversion to TOML values: `extra_filetypes` given as "
+           f"an array of tables reaches ExtraFileType.from_string(<dict>) and loading aborts", py.nloc(conv[0].node) if conv else py.nloc(toml))
+
 RULES = [
     RuleSpec("C15.R4", r4_path_rooting, "relative paths are rooted at the project file's directory", floor=2),
     RuleSpec("C15.R8", r8_metadata_grammar, "markdown metadata grammar: key lines vs continuation lines", floor=2),
@@ -448,4 +480,5 @@ RULES = [
     RuleSpec("C15.R5", r5_unknown_keys, "unknown keys are reported, not fatal", floor=1),
     RuleSpec("C15.R6", r6_precedence, "precedence file < --config < CLI", floor=6),
     RuleSpec("C15.R7", r7_schema_only_writes, "only schema fields are written onto the settings object", floor=1),
+    RuleSpec("C15.R9", r9_values_recorded_as_written, "values are recorded as written; TOML values stay native", floor=2),
 ]
